@@ -99,7 +99,10 @@ class Interp:
         if isinstance(cls, ExtClass):
             if cls.py is not None:
                 return [self.loader.ext_class(c.__name__, c) for c in cls.py.__mro__]
-            return [cls]
+            out = [cls]
+            for b in getattr(cls, "bases", ()) or ():          # sidecar-declared external hierarchies
+                out += [c for c in self.mro(b) if c not in out]
+            return out
         raise Unsupported(f"mro of {cls!r}")
 
     def is_subclass(self, cls, parent):
@@ -456,6 +459,8 @@ class Interp:
             return self.ext(c.name)
         return c
 
+    STRUCTURAL_ABCS = {"Iterable": "__iter__", "Iterator": "__next__", "Hashable": "__hash__", "Sized": "__len__", "Container": "__contains__"}
+
     def isinstance(self, v, cls):
         cls = self.norm_cls(cls)
         if isinstance(cls, tuple):
@@ -467,6 +472,17 @@ class Interp:
                 if x is not False:
                     r = x if r is False else SBool(z3.Or(zbool(r), zbool(x)))
             return r
+        if isinstance(cls, ExtClass) and cls.name.split(".")[-1] in self.STRUCTURAL_ABCS and cls.name.split(".")[0] in ("collections", "typing", "typing_extensions", "Iterable", "Hashable", "Sized", "Container", "Iterator"):
+            # the structural ABCs of collections.abc: an instance is whatever defines the method
+            dunder = self.STRUCTURAL_ABCS[cls.name.split(".")[-1]]
+            if isinstance(v, Obj) and isinstance(v.cls, ClassInfo):
+                return bool(v.cls.find(dunder, self.loader)) or "__data__" in v.fields and dunder in ("__iter__", "__len__", "__contains__")
+            if isinstance(v, (PyList, PySet, PyDict, tuple, str, SStr)):
+                return dunder in ("__iter__", "__len__", "__contains__") or (dunder == "__hash__" and isinstance(v, (tuple, str, SStr)))
+            if isinstance(v, (GenObj, SymStream)):
+                return dunder in ("__iter__", "__next__")
+            if ops.is_concrete_scalar(v) or isinstance(v, SV):
+                return dunder == "__hash__"
         if isinstance(v, Obj):
             if isinstance(cls, (ClassInfo, ExtClass)):
                 return self.is_subclass(v.cls, cls)
